@@ -15,7 +15,7 @@ import z3
 from . import api, front
 from .sym import (
     FALSE, TRUE, And, Opaque, Or, PathAbort, PyRaise, SBool, SBound, SDt, SFloat, SFunc,
-    SInt, SMatch, SObj, SSet, SStr, SSuper, STd, Unsupported, bool_term, char_term,
+    SInt, SMatch, SObj, SSet, SStr, SSuper, STd, SUnb, Unsupported, bool_term, char_term,
     int_term, is_str, is_symbolic, mk_bool, mk_int, mk_str, str_chars, str_eq_term,
 )
 
@@ -90,7 +90,7 @@ def type_of(v):
         return int
     if isinstance(v, SFloat):
         return float
-    if isinstance(v, SStr):
+    if isinstance(v, (SStr, SUnb)):
         return str
     if isinstance(v, SObj):
         return v.cls
@@ -145,6 +145,8 @@ class Interp:
             return self.decide(self.models.float_ne_zero(self, v))
         if isinstance(v, SStr):
             return len(v) > 0
+        if isinstance(v, SUnb):
+            return self.decide(z3.Bool(self.ex.fresh_name(f"{v.name}_nonempty")))
         if isinstance(v, SSet):
             return self.decide(Or(*[c for _, c in v.members]))
         if isinstance(v, SObj):
@@ -227,7 +229,7 @@ class Interp:
             if found is None:
                 self.py_raise(AttributeError, f"super object has no attribute '{name}'")
             return self.bind_class_attr(found[0], found[1], target, tcls)
-        if isinstance(obj, (SStr, SInt, SBool, SFloat, SSet, SDt, STd, SMatch)):
+        if isinstance(obj, (SStr, SInt, SBool, SFloat, SSet, SDt, STd, SMatch, SUnb)):
             return self.models.symbolic_attr(self, obj, name)
         if isinstance(obj, (SFunc, SBound)):
             if name == "__name__":
